@@ -383,15 +383,15 @@ def unmarshal_contract():
         return havoc
 
     cases = [
-        case('protocol-header', w_ph, returns=r_ph),
+        case('protocol-header', w_ph, returns=r_ph, fresh_result=True),
         case('protocol-header-truncated', w_ph_short, raises=UE),
         case('shorter-than-a-frame-header', w_short, raises=UE),
-        case('heartbeat', w_hb, returns=r_hb),
+        case('heartbeat', w_hb, returns=r_hb, fresh_result=True),
         case('heartbeat-incomplete-or-bad-end', w_hb_bad, raises=UE),
         case('zero-size', w_zero, raises=UE),
         case('incomplete', w_incomplete, raises=UE),
         case('bad-frame-end', w_bad_end, raises=UE),
-        case('body', w_kind(3), returns=r_body),
+        case('body', w_kind(3), returns=r_body, fresh_result=True),
         case('method', w_kind(1), post=p_kind(base.Frame), havoc=h_kind(base.Frame), may_raise=(UE,)),
         case('content-header', w_kind(2), post=p_kind(header.ContentHeader), havoc=h_kind(header.ContentHeader), may_raise=(UE,)),
         case('unknown-type', w_unknown, raises=UE),
